@@ -26,7 +26,7 @@ def build_world(kind, runtime_async=True, max_connections=1, yield_in_ops=True, 
         return p
 
     def factory(rec):
-        if kind in ("forward", "tunnel-h1", "tunnel-h2"):
+        if kind in ("forward", "tunnel-h1", "tunnel-h2", "tunnel-ws"):
             p = servers.ProxyServer(inner_factory=origin_peer)
             peers.append(p)
             return p
@@ -39,13 +39,15 @@ def build_world(kind, runtime_async=True, max_connections=1, yield_in_ops=True, 
     net = simnet.Net(CallerFaults(peer_factory=factory))
     net.yield_in_ops = yield_in_ops
     kw = dict(max_connections=max_connections, http2=h2, retries=retries, ssl_context=simnet.RecordingSSLContext("origin"))
-    if kind in ("forward", "tunnel-h1", "tunnel-h2"):
+    if kind in ("forward", "tunnel-h1", "tunnel-h2", "tunnel-ws"):
         kw["proxy"] = httpcore.Proxy("http://proxy.example:3128", headers={"X-Proxy": "1"})
     elif kind == "socks5":
         kw["proxy"] = httpcore.Proxy("socks5://socks.example:1080")
     elif kind == "socks5-auth-tls":
         kw["proxy"] = httpcore.Proxy("socks5://socks.example:1080", auth=("user", "pw"))
     scheme = "https" if kind in ("direct-tls-h1", "direct-h2", "tunnel-h1", "tunnel-h2", "socks5-auth-tls") else "http"
+    if kind == "tunnel-ws":
+        scheme = "ws"        # tunnelled with CONNECT like https, but without TLS: the exchange reads through the hand-over stream
     if runtime_async:
         pool = httpcore.AsyncConnectionPool(network_backend=simnet.AsyncSimBackend(net), **kw)
     else:
